@@ -30,7 +30,7 @@ type c01Op struct {
 	Kind   string `json:"k"` // put putmany delete get has getsize view allkeys allkeyserr
 	Key    int    `json:"key,omitempty"`
 	Keys   []int  `json:"keys,omitempty"`
-	Form   int    `json:"form,omitempty"`   // 0 v1-raw, 1 v1-dag-pb, 2 v0 (only sha2-256 keys)
+	Form   int    `json:"form,omitempty"`   // 0 v1-raw, 1 v1-dag-pb, 2 v0 (only sha2-256 keys), 3 v1-dag-json (two-byte codec varint)
 	Cancel int    `json:"cancel,omitempty"` // enumeration: cancel the context after this many keys (0 = never)
 }
 
@@ -80,6 +80,9 @@ func c01Cid(i, form int) cid.Cid {
 		return cid.NewCidV0(h)
 	case form == 1:
 		return cid.NewCidV1(cid.DagProtobuf, h)
+	case form == 3:
+		// a codec whose number needs a two-byte varint (dag-json, 0x0129)
+		return cid.NewCidV1(cid.DagJSON, h)
 	}
 	return cid.NewCidV1(cid.Raw, h)
 }
@@ -103,7 +106,7 @@ func c01Gen(t *rapid.T, tier string) any {
 	}
 	kinds := []string{"put", "put", "putmany", "delete", "get", "has", "getsize", "view", "allkeys", "allkeyserr"}
 	opGen := rapid.Custom(func(t *rapid.T) c01Op {
-		op := c01Op{Kind: rapid.SampledFrom(kinds).Draw(t, "kind"), Form: rapid.IntRange(0, 2).Draw(t, "form")}
+		op := c01Op{Kind: rapid.SampledFrom(kinds).Draw(t, "kind"), Form: rapid.IntRange(0, 3).Draw(t, "form")}
 		switch op.Kind {
 		case "putmany":
 			op.Keys = rapid.SliceOfN(rapid.IntRange(0, c01NKeys-1), 0, 4).Draw(t, "keys")
